@@ -2,7 +2,7 @@
 
 model level : TLC checks the contract machine spec/XoHybrid.tla (Mirror at every depth, CopyIndependent, PartsInside,
               RefShares, MoveRefusal; action properties CopyEqual, MovePreserves, WriteLocal, NestedStoresCopy) on every
-              history up to the tier's depth for seven initial populations; a run with Bug = TRUE (the pinned tree's
+              history up to the tier's depth for eight initial populations; a run with Bug = TRUE (the pinned tree's
               nested assignment) must violate Mirror (non-vacuity self test).
 spec -> code: TLC exports EVERY transition of the bounded state graph (XoHybridGen.tla) together with the first (shortest)
               history that reaches its pre-state; each one is replayed on REAL xo.HybridClass definitions (several
@@ -27,21 +27,22 @@ CT = {
     "Outer": [("mid", "mid", "nest", "Mid"), ("z", "z", "leaf", None)],
     "Holder": [("r", "r", "ref", "Leaf"), ("h", "h", "leaf", None)],
     "Renamed": [("_x", "x", "leaf", None), ("_in", "inn", "nest", "Leaf"), ("y", "y", "leaf", None)],
+    "Wrap": [("hold", "hold", "nest", "Holder"), ("w", "w", "leaf", None)],        # a nested part that itself holds a reference
 }
 # realisations: slot -> ("sc", kind) | ("str",) | ("arr", kind, declared shape, concrete shape); wr = how an array slot is written
 VARIANTS = [
-    dict(name="dyn", a=("sc", "Int64"), s=("str",), arr=("arr", "Float64", (None,), (3,)), k=("sc", "Int32"), z=("sc", "Float64"),
+    dict(name="dyn", w=("sc", "Float32"), a=("sc", "Int64"), s=("str",), arr=("arr", "Float64", (None,), (3,)), k=("sc", "Int32"), z=("sc", "Float64"),
          h=("sc", "Int64"), x=("sc", "Int64"), y=("sc", "Float32"), wr="whole", cap=1 << 14),
-    dict(name="static", a=("sc", "Float32"), s=("sc", "UInt16"), arr=("arr", "Int16", (3,), (3,)), k=("sc", "UInt8"), z=("sc", "Int8"),
+    dict(name="static", w=("sc", "Int64"), a=("sc", "Float32"), s=("sc", "UInt16"), arr=("arr", "Int16", (3,), (3,)), k=("sc", "UInt8"), z=("sc", "Int8"),
          h=("sc", "UInt32"), x=("sc", "UInt64"), y=("sc", "Int16"), wr="elem", cap=1 << 14),
-    dict(name="nd", a=("sc", "UInt8"), s=("str",), arr=("arr", "Float64", (2, 2), (2, 2)), k=("sc", "Int64"), z=("sc", "UInt16"),
+    dict(name="nd", w=("sc", "UInt16"), a=("sc", "UInt8"), s=("str",), arr=("arr", "Float64", (2, 2), (2, 2)), k=("sc", "Int64"), z=("sc", "UInt16"),
          h=("sc", "Int8"), x=("sc", "Float64"), y=("sc", "UInt32"), wr="whole", cap=1 << 14),
-    dict(name="dyn2d-grow", a=("sc", "Int16"), s=("str",), arr=("arr", "Int32", (None, 2), (2, 2)), k=("sc", "Float32"), z=("sc", "Int32"),
+    dict(name="dyn2d-grow", w=("sc", "Float64"), a=("sc", "Int16"), s=("str",), arr=("arr", "Int32", (None, 2), (2, 2)), k=("sc", "Float32"), z=("sc", "Int32"),
          h=("sc", "UInt64"), x=("sc", "Int8"), y=("sc", "UInt8"), wr="elem", cap=64),          # small buffers: growth during the history
     # "flex": the string and the dynamic array of a Leaf have a length that differs from object to object (three layouts, chosen by
     # the object's initial tokens) in a complementary way, so that every Leaf has the same TOTAL size (nested assignment is
     # honoured) but another split between its two dynamically sized fields; a written value takes the length the slot has
-    dict(name="split", a=("sc", "Int64"), s=("str", "flex"), arr=("arr", "Float64", (None,), "flex"), k=("sc", "Int16"), z=("sc", "Float32"),
+    dict(name="split", w=("sc", "UInt8"), a=("sc", "Int64"), s=("str", "flex"), arr=("arr", "Float64", (None,), "flex"), k=("sc", "Int16"), z=("sc", "Float32"),
          h=("sc", "Int32"), x=("sc", "UInt16"), y=("sc", "Float64"), wr="whole", cap=1 << 14),
 ]
 # (string length, array length): 8 + slot(len + 1) + 16 + 8 n = 80 for each of them
@@ -93,7 +94,8 @@ def family(vi):
     Holder = type("Holder" + tag, (xo.HybridClass,), {"_xofields": {"r": xo.Ref(Leaf), "h": ty(v["h"])}})
     Renamed = type("Renamed" + tag, (xo.HybridClass,), {"_xofields": {"_x": ty(v["x"]), "_in": Leaf, "y": ty(v["y"])},
                                                          "_rename": {"_x": "x", "_in": "inn"}})
-    _FAM[vi] = dict(Leaf=Leaf, Mid=Mid, Outer=Outer, Holder=Holder, Renamed=Renamed)
+    Wrap = type("Wrap" + tag, (xo.HybridClass,), {"_xofields": {"hold": Holder, "w": ty(v["w"])}})   # -> Holder._XoStruct nested by value
+    _FAM[vi] = dict(Leaf=Leaf, Mid=Mid, Outer=Outer, Holder=Holder, Renamed=Renamed, Wrap=Wrap)
     return _FAM[vi]
 
 
@@ -151,18 +153,35 @@ class World:
         ctx = _ctx()
         self.bufs = [ctx.new_buffer(VARIANTS[vi]["cap"]), ctx.new_buffer(VARIANTS[vi]["cap"])]
         self.hs = []
-        for a in init["heap"]:
-            kw = self._kwargs(a["cls"], a["val"])
+        for i, a in enumerate(init["heap"]):
+            kw = self._kwargs(a["cls"], a["val"], init["heap"][:i], a["buf"])
             self.hs.append(fam[a["cls"]](**kw, _buffer=self.bufs[a["buf"] - 1]))
 
-    def _kwargs(self, cls, val):
+    @staticmethod
+    def _has_ref(cls, val):
+        return any((k == "ref" and val[n]) or (k == "nest" and World._has_ref(c, val[n])) for n, py, k, c in CT[cls])
+
+    def _kwargs(self, cls, val, before, buf):
+        """constructor arguments; `before` = the allocations already built (self.hs[j] realises before[j]).  A non-null reference
+        is given as the (earlier, same buffer) hybrid object it designates; a nested part that holds a reference is given as the
+        earlier hybrid object of that class with the same data (`Wrap(hold=m0)`), as a user builds such populations"""
         kw = {}
         for n, py, k, c in CT[cls]:
             if k == "leaf":
                 kw[py] = concrete(self.vi, py, val[n])
             elif k == "nest":
-                kw[py] = self._kwargs(c, val[n])
-            # reference fields start null (not passed)
+                if self._has_ref(c, val[n]):
+                    src = [j for j, b in enumerate(before) if b["cls"] == c and b["buf"] == buf and b["val"] == val[n]]
+                    if not src:
+                        raise C.MachineryError(f"initial population: no earlier {c} object to build the nested part {n} from")
+                    kw[py] = self.hs[src[0]]
+                else:
+                    kw[py] = self._kwargs(c, val[n], before, buf)
+            elif val[n]:        # reference fields start null (not passed) unless the population says otherwise
+                aid, path = val[n]
+                if path or aid > len(before) or before[aid - 1]["buf"] != buf:
+                    raise C.MachineryError(f"initial population: reference {val[n]} cannot be built")
+                kw[py] = self.hs[aid - 1]
         return kw
 
     def touch(self):
@@ -488,7 +507,7 @@ def _worker(task):
 
 
 # ----------------------------------------------------------------------------- TLC: export and model checking
-ALLW = '{"a","s","arr","k","z","h","x","y"}'
+ALLW = '{"a","s","arr","k","z","h","x","y","w"}'
 CONST = "Scens = {scen} MaxDepth = {d} MaxH = {mh} Vals = {vals} WSlots = {ws} Bufs = {{1,2}} Bug = {bug}"
 INVS = "INVARIANT Mirror\nINVARIANT CopyIndependent\nINVARIANT PartsInside\nINVARIANT RefShares\n"
 PROPS = "INVARIANT MoveRefusal\nPROPERTY CopyEqual\nPROPERTY MovePreserves\nPROPERTY WriteLocal\nPROPERTY NestedStoresCopy\n"
@@ -575,18 +594,19 @@ def tlc_check(job):
 # export: (scenario, depth, MaxH, Vals, WSlots, realisations per transition) - every transition replayed on the real library
 TIERS = {
     "quick": dict(
-        check=[((1, 2, 3, 4, 5, 6, 7), 4, 3, "{1}", '{"a","x","arr"}', 6)],
-        props=[((1, 2, 3, 4, 6), 2, 3, "{1,2}", ALLW, 3)],
+        check=[((1, 2, 3, 4, 5, 6, 7), 4, 3, "{1}", '{"a","x","arr"}', 6), ((8,), 3, 6, "{1}", '{"a","h","w"}', 3)],   # 8 starts with 5 objects
+        props=[((1, 2, 3, 4, 6), 2, 3, "{1,2}", ALLW, 3), ((8,), 2, 6, "{1,2}", ALLW, 2)],
         export=[(1, 3, 3, "{1}", '{"a","k"}', 1), (7, 3, 3, "{1}", ALLW, 1), (2, 4, 3, "{1}", '{"a"}', 1), (3, 3, 3, "{1}", '{"a","x","y"}', 1),
-                (4, 4, 3, "{1}", '{"a"}', 1), (5, 2, 3, "{1}", '{"a"}', 1), (6, 4, 3, "{1}", '{"a"}', 1)],
+                (4, 4, 3, "{1}", '{"a"}', 1), (5, 2, 3, "{1}", '{"a"}', 1), (6, 4, 3, "{1}", '{"a"}', 1), (8, 3, 6, "{1}", '{"a","h"}', 1)],
         tlc_parallel=10, pool=10),
     "thorough": dict(
         check=[((2, 4, 6), 6, 3, "{1}", '{"a"}', 4), ((3, 7), 6, 3, "{1}", '{"a","x"}', 5), ((1,), 6, 3, "{1}", '{"a"}', 6), ((5,), 5, 3, "{1}", '{"a"}', 4),
-               ((1, 2, 3, 4, 5, 6, 7), 4, 4, "{1,2}", '{"a","x","arr","s"}', 6)],
-        props=[((1, 2, 3, 4, 5, 6, 7), 3, 3, "{1,2}", ALLW, 4)],
+               ((1, 2, 3, 4, 5, 6, 7), 4, 4, "{1,2}", '{"a","x","arr","s"}', 6), ((8,), 4, 6, "{1}", '{"a","h"}', 4)],
+        props=[((1, 2, 3, 4, 5, 6, 7), 3, 3, "{1,2}", ALLW, 4), ((8,), 3, 6, "{1,2}", ALLW, 3)],
         export=[(1, 4, 3, "{1}", '{"a","k"}', 1), (2, 6, 3, "{1}", '{"a"}', 1), (3, 5, 3, "{1}", '{"a","x"}', 1), (4, 5, 3, "{1}", '{"a"}', 1),
                 (5, 3, 3, "{1}", '{"a"}', 2), (6, 6, 3, "{1}", '{"a"}', 1), (7, 4, 3, "{1}", '{"a","s","arr","k"}', 1),
-                (1, 3, 3, "{1,2}", ALLW, 4), (3, 3, 3, "{1,2}", ALLW, 4), (7, 3, 4, "{1,2}", ALLW, 4), (2, 3, 4, "{1,2}", ALLW, 4)],
+                (1, 3, 3, "{1,2}", ALLW, 4), (3, 3, 3, "{1,2}", ALLW, 4), (7, 3, 4, "{1,2}", ALLW, 4), (2, 3, 4, "{1,2}", ALLW, 4),
+                (8, 4, 6, "{1}", '{"a"}', 1), (8, 2, 7, "{1,2}", ALLW, 5)],
         tlc_parallel=6, pool=10),
 }
 
@@ -645,7 +665,9 @@ def check(pid, argv=None):
     os.environ["VERIF_C18_TMP"] = run.tmp
     os.chdir(run.tmp)
     run.assumptions += [
-        "contract XoHybrid.tla transcribes C18; class family Leaf/Mid/Outer (three levels), Holder (Ref), Renamed (renamed scalar and nested field)",
+        "contract XoHybrid.tla transcribes C18; class family Leaf/Mid/Outer (three levels), Holder (Ref), Renamed (renamed scalar and nested field), "
+        "Wrap (a nested part that itself holds a reference; a nested assignment from another buffer gives the copy a duplicate of the referent "
+        "in the destination's buffer, as copy does)",
         "objects of one class have equal sizes (same array lengths, strings in one 16-byte box): size-changing assignment is C10/C11's domain",
         "move of a reference TARGET and of an object whose reference fields are all null is left open by the property (either outcome accepted)",
         "`_movable` flags are compared as model-drift only; the verdict is on refusal behaviour",
